@@ -296,6 +296,8 @@ int restore_hash_string (char **val, svalue_t * sv) {
               {
                 while ((c = *cp++) != '"')
                   {
+                    if (c == '\0')
+                      return ROB_STRING_ERROR; /* unterminated: do not run past the end of the text */
                     if (c == '\\')
                       {
                         if (!(c = *newp++ = *cp++))
